@@ -95,8 +95,8 @@ package sample
 //@ contract sample.getSharedDynsamplerAndRecorder props C12,C35 localcalls
 //@   assert locks
 //@   requires s != nil
-//@   requires[lock-free-at-entry] s.mutex == 0
-//@   ensures[lock-released] s.mutex == 0
+//@   requires[lock-free-at-entry@C12,C35] s.mutex == 0
+//@   ensures[lock-released@C12,C35] s.mutex == 0
 //@   ghostupdate registryKey(s) :: registryKey(s) == dynsamplerKey
 //@   ensures[same-key-same-instance] in(old(s.sharedDynsamplers), dynsamplerKey) && implements(old(s.sharedDynsamplers)[dynsamplerKey].dynsampler, ST) ==> s.sharedDynsamplers == old(s.sharedDynsamplers) && result1 == old(s.sharedDynsamplers)[dynsamplerKey].recorder
 //@   ensures[new-key-new-entry] !in(old(s.sharedDynsamplers), dynsamplerKey) ==> in(s.sharedDynsamplers, dynsamplerKey) && s.sharedDynsamplers[dynsamplerKey].recorder == result1 && isFresh(result1)
